@@ -1,9 +1,10 @@
 """C11 — see DESIGN.md section 6."""
 from kv_engine import *
 import fmt_engine
+import conc_engine
 
 MODULE = "Feox.Props.C11"
-THEOREMS = ['Feox.C11.get_never_after', 'Feox.C11.range_never_after', 'Feox.C11.cas_never_after', 'Feox.C11.update_ttl_never_after', 'Feox.C11.patch_never_after', 'Feox.C11.incr_reinitialises', 'Feox.C11.get_never_before', 'Feox.C11.sweep_never_before', 'Feox.C11.survives_restart', 'Feox.C11.restart_drops_expired', 'Feox.C11.expiry_arith', 'Feox.C11.ttl_only_update_keeps_value',
+THEOREMS = ['Feox.C11.sweeper_removes_only_expired_current', 'Feox.C11.sweeper_needs_identity_check', 'Feox.Conc.Sweep.step_inv', 'Feox.C11.get_never_after', 'Feox.C11.range_never_after', 'Feox.C11.cas_never_after', 'Feox.C11.update_ttl_never_after', 'Feox.C11.patch_never_after', 'Feox.C11.incr_reinitialises', 'Feox.C11.get_never_before', 'Feox.C11.sweep_never_before', 'Feox.C11.survives_restart', 'Feox.C11.restart_drops_expired', 'Feox.C11.expiry_arith', 'Feox.C11.ttl_only_update_keeps_value',
             'Feox.C11.recovery_keeps_newest', 'Feox.C11.recovery_no_resurrection', 'Feox.Fmt.scan_dominates']
 
 
@@ -49,5 +50,6 @@ def run(ctx):
         "the reference map is Lean Feox.Kv.Spec; its agreement with the real store is differential testing over the generated sequences",
         "json-patch/serde_json results, the wall clock and the key->clock-shard hash are inputs of the model (recorded per call by the harness)",
         "disk reads are assumed faithful here (C05/C10 cover the bytes); concurrency is outside this engine (Conc engine)",
+        "sweeper vs writers: Feox.Conc.Sweep models the lock-free sample, the clock and the guarded removal; the real sweeper is parked at the hook point sweep_sampled (between sample and removal) while the key is re-written, TTL-updated, persisted or deleted",
         "no resurrection on crash images: multi-generation images are built by copying a real record to a free block with another timestamp / expiry and re-stamping its token; the Lean reader Feox.Fmt.recoverImage is the reference",
-    ], pre_finish=image_stage)
+    ], pre_finish=lambda c, cov: (image_stage(c, cov), conc_engine.sweep_stage(c, cov)))
